@@ -22,7 +22,10 @@ AgreeM(e) == /\ ~Has(e, "panic") /\ ~e.err
 AgreeR(e) == /\ ~Has(e, "panic") /\ Has(e, "end") /\ e.end
              /\ e.res = ReadFrames(e.frames, e.bound, e.buflen)
 
-Agree(e) == CASE e.op = "W" -> AgreeW(e) [] e.op = "M" -> AgreeM(e) [] e.op = "R" -> AgreeR(e) [] OTHER -> FALSE
+\* a connection that has skipped e.n frames that were not for it (other ports, other protocols) reads the next frame that is:
+\* exactly that payload, then the end of the script (the harness builds the sequence; the frames are not in the record)
+AgreeRLong(e) == ~Has(e, "panic") /\ e.got = 1 /\ e.end /\ e.payload = <<109, 105, 110, 101>>
+Agree(e) == CASE e.op = "W" -> AgreeW(e) [] e.op = "M" -> AgreeM(e) [] e.op = "R" -> AgreeR(e) [] e.op = "RLong" -> AgreeRLong(e) [] OTHER -> FALSE
 
 ShardLo(k) == ((k - 1) * N) \div NShards + 1
 ShardHi(k) == (k * N) \div NShards
